@@ -192,3 +192,89 @@ class Register(Kernel):
 
 
 KERNELS.append(Register())
+
+
+class RunFactory(Kernel):
+    id = "C11.P.run_factory"
+    prop = "C11"
+    file = "einx/_src/frontend/backend.py"
+    module = "einx._src.frontend.backend"
+    qual = "BackendRegistryState/_run_factory"
+    describe = ("_run_factory(module, name, factory): the factory runs exactly once; if it returns, exactly its result is registered; if it raises ANY exception, nothing propagates and an "
+                "InvalidBackend carrying the backend's name is registered instead ('a backend whose import or initialisation failed raises ImportBackendError only when it is actually "
+                "selected, leaving all other backends usable'); _register is called exactly once either way")
+
+    def setup(self, eng, bound=None):
+        self.fb = z3.Const("factory_result", Obj)
+        self.bname = z3.Const("backend_name", Obj)
+        self.fails = z3.Bool("factory_raises")
+        eng.allowed_raises = tuple(eng.allowed_raises) + ("Exception",)
+
+        def c_factory(e, p, av, kw):
+            p.ghost["factory_calls"] = p.ghost.get("factory_calls", 0) + 1
+            q = p.fork()
+            q.pc.append(self.fails)
+            q.ghost["raised"] = True
+            e.raise_("Exception", q, None)
+            p.pc.append(z3.Not(self.fails))
+            return SObj(self.fb)
+
+        def c_invalid(e, p, av, kw):
+            return SRec("InvalidBackend", name=av[0], message=av[1] if len(av) > 1 else kw.get("message"))
+
+        def c_register(e, p, av, kw):
+            p.ghost["registered"] = list(p.ghost.get("registered", [])) + [av[0]]
+            return SConc(None)
+
+        eng.contracts.update({"backend_factory": SContract(c_factory, "the backend factory (may raise anything)"), "InvalidBackend": SContract(c_invalid, "InvalidBackend(name, message)"),
+                              "self._register": SContract(c_register, "_register (C11.P.register)"), "traceback.format_exc": SContract(lambda e, p, av, kw: SConc("<traceback>"))})
+
+        def st_Try(st, p):  # try: <body> except Exception: <handler>
+            if st.finalbody or st.orelse or len(st.handlers) != 1 or ast.unparse(st.handlers[0].type) != "Exception":
+                raise OutOfSubset("try form")
+            eng._exc.append([])
+            try:
+                outs = list(eng.exec_block(st.body, [p]))
+            finally:
+                raised = eng._exc.pop()
+            for out, q in outs + raised:
+                if isinstance(out, Raise):
+                    yield from eng.exec_block(st.handlers[0].body, [q])
+                else:
+                    yield out, q
+
+        eng.st_Try = st_Try
+        return {"self": SRec("BackendRegistryState"), "module_name": SConc("fw"), "backend_name": SObj(self.bname), "backend_factory": eng.contracts["backend_factory"]}, [], {}
+
+    def post(self, eng, out, p):
+        if isinstance(out, Raise):
+            eng.oblige("post:no exception of the factory propagates out of _run_factory", p, z3.BoolVal(False), "post")
+            return
+        reg = p.ghost.get("registered", [])
+        eng.oblige("post:the factory runs exactly once and _register is called exactly once", p, z3.BoolVal(p.ghost.get("factory_calls") == 1 and len(reg) == 1), "post")
+        if len(reg) != 1:
+            return
+        r = reg[0]
+        if p.ghost.get("raised"):
+            eng.oblige("post:a failing factory leads to an InvalidBackend with the backend's name being registered", p, r.f["name"].t == self.bname if isinstance(r, SRec) and r.cls == "InvalidBackend" and isinstance(r.f.get("name"), SObj) else z3.BoolVal(False), "post")
+        else:
+            eng.oblige("post:a factory that returns has exactly its result registered", p, r.t == self.fb if isinstance(r, SObj) else z3.BoolVal(False), "post")
+
+    def twin(self, tier):
+        import einx._src.frontend.backend as Bk
+        n, fails = 0, []
+        st = Bk.BackendRegistryState()
+        good = Bk.Backend(ops={}, name="good", priority=0, optimizations=[], compiler=None, is_supported_tensor=lambda t: False, get_shape=None)
+
+        def boom():
+            raise ImportError("no such framework")
+
+        n += 2
+        st._run_factory("m", "good", lambda: good)
+        st._run_factory("m", "bad", boom)
+        if st.name_to_backend.get("good") is not good or not isinstance(st.name_to_backend.get("bad"), Bk.InvalidBackend) or len(st.backends) != 2:
+            fails.append({"detail": "factory results not registered as (result, InvalidBackend)"})
+        return n, fails[:3]
+
+
+KERNELS.append(RunFactory())
